@@ -386,7 +386,7 @@ func (g *Gen) callCommon(fn *ssa.Function, st *State, call *ssa.CallCommon, resu
 		if g.stdSpecial(st, callee.String(), call, result, pos) {
 			return
 		}
-		if cc == nil && g.canInline(callee) {
+		if g.canInline(callee) { // an explicit `inline` wins over the callee's own contract
 			g.inlineCall(fn, st, callee, args, nil, result)
 			return
 		}
@@ -406,7 +406,7 @@ func (g *Gen) callCommon(fn *ssa.Function, st *State, call *ssa.CallCommon, resu
 		_ = v
 	}
 	top := fn == g.fn
-	if top && g.c != nil {
+	if g.c != nil { // observations also apply inside inlined helpers
 		for _, ob := range g.c.Observe {
 			if ob[0] == dispName {
 				for i, n := range names {
@@ -479,6 +479,10 @@ func (g *Gen) callCommon(fn *ssa.Function, st *State, call *ssa.CallCommon, resu
 	}
 	if cc != nil && cc.Returns != "" {
 		res = Val{T: cc.Returns, Kind: "int"}
+	}
+	if g.splitCallee != "" && g.splitCallee == dispName {
+		// case split: this instance of the function is verified with the literal result
+		res = Val{T: g.splitVal, Kind: "int"}
 	}
 	// entry-of-call snapshot for old() inside the callee's ensures
 	preHs, preHeap, preGhost := g.hsGet(st), map[string]string{}, map[string]Val{}
